@@ -36,7 +36,7 @@ def firstDiff (g : ExtGrammar) (real : Grammar) (pinned : List Nat) (alphabet : 
         some s!"nonterminal {g.cx.userNames.getD u "?"} string {showWord w}: denotation={showBool dv} expanded-rules={showBool rv}"
       else none
 
-def handleCase (args : List String) : Option String :=
+def handleCase (tagged : Bool) (args : List String) : Option String :=
   match args with
   | "struct" :: rest =>
     let (ext, real) := splitAt rest
@@ -45,7 +45,9 @@ def handleCase (args : List String) : Option String :=
       let g ← parseExt ext
       let rg ← parseGrammar [a, b, c, d, e, f]
       let pinned ← parseNats pinned
-      if !wfGrammar g then some "notwf" else
+      -- the hypotheses of `C13_expand_preserves_sentences_partial` (cases of the known empty-set class
+      -- are tagged by the harness and only compared)
+      if !wfGrammar g || (!tagged && !setsOkB g.cx) then some "notwf" else
       let cm := canon g.cx.nT (plainRules g) ((List.range g.user.length).map (g.cx.nT + ·))
       let cr := canon rg.nTerms rg.rules.toList pinned
       if cm == cr then some "ok" else some s!"mismatch mirror=[{cm}] real=[{cr}]"
@@ -125,12 +127,13 @@ def judge (goAns : List String) (case : List String) : Option String :=
 
 def handle (args : List String) : Option String :=
   -- tokens starting with `#` are tags for the known-findings matcher, not part of the case
+  let tagged := args.any (fun t => t.startsWith "#[C13-empty-set]")
   let args := args.filter (fun t => !t.startsWith "#")
   match args with
   | "judge" :: rest =>
     -- `judge <go answer…> :: <case…>`; the first `::` ends the go answer
     let (goAns, case) := splitAt rest
     judge goAns case
-  | _ => handleCase args
+  | _ => handleCase tagged args
 
 end TmVerif.DriverC13
